@@ -251,6 +251,17 @@ def run(ctx):
     if not pn:
         pn = sorted(set(re.findall(r"'([a-z]+)'", " ".join(expr(hp, a) for c in hp.calls() for a in c.args))))
     res.check(pn == ["one", "two"], "R15.1", "subcommand-names|Plain", hp.where(), "has_subcommand(Plain) knows %s" % pn, "has_subcommand of Plain knows %s, expected one/two" % pn)
+    # nested-subcommand variants are known by NAME; only flattened variants delegate to the inner enum
+    ht = cx.body("<%sTop as %sSubcommand>::has_subcommand" % (C, D))
+    names_t = sorted(set(x for x in (const_of(c.body, a) for c in ht.calls_to(r"PartialEq.*::eq$") for a in c.args) if x))
+    deleg = sorted(c.callee_q for c in ht.calls_to(r"Subcommand>?::has_subcommand$"))
+    res.check(names_t == ["remote", "status"] and deleg == ["<%sPlain as %sSubcommand>::has_subcommand" % (C, D)], "R15.1", "subcommand-names|Top", ht.where(),
+              "has_subcommand(Top): names %s, delegates to %s" % (names_t, [d.split(" as ")[0].rsplit("::", 1)[-1] for d in deleg]),
+              "has_subcommand(Top) knows the names %s and delegates to %s; expected names remote/status (the #[command(subcommand)] variant is addressed by its own name) and delegation to Plain only (the flattened variant): an Option<Top> field would stay None although `remote` was given" % (names_t, deleg))
+    fam = cx.body("<%sTop as %sFromArgMatches>::from_arg_matches_mut" % (C, D))
+    rn = sorted(set(x for x in (const_of(c.body, a) for t in tree(fam) for c in t.calls_to(r"PartialEq.*::eq$") for a in c.args) if x))
+    res.check("remote" in rn and bool(tree_calls(fam, r"<%sRemoteCmd as %sFromArgMatches>::from_arg_matches_mut$" % (re.escape(C), re.escape(D)))), "R15.1", "subcommand-dispatch|Top.Remote", fam.where(),
+              "`remote` is dispatched by name to RemoteCmd::from_arg_matches_mut", "from_arg_matches_mut(Top) no longer dispatches `remote` to the nested enum (names compared: %s)" % rn)
     asb = cx.body("<%sCmd as %sSubcommand>::augment_subcommands" % (C, D))
     subs = sorted(set(x for x in (const_of(asb, c.args[0]) for c in asb.calls_to(r"Command::new$")) if x))
     res.check(subs == ["add", "remove", "unit"] and bool(asb.calls_to(r"Command::external_subcommand_value_parser$")), "R15.1", "subcommand-augment", asb.where(), "subcommands %s + external" % subs, "augment_subcommands defines %s" % subs)
